@@ -153,6 +153,7 @@ package heur
 //@ define seeYnow(b, occ, stm, to) = seeY(pos(b), occ, uint8(stm ^ 1), uint8(to))
 //@ func SEE view equiv
 //@   props C18
+//@   timeout 600
 //@   requires repOK(b) && validPos(pos(b)) && pseudo(pos(b), uint16(m)) && -4000 <= threshold && threshold <= 4000
 //@   use board.repInstance(b, m.From())
 //@   use board.repInstance(b, b.CaptureSq(m))
